@@ -560,11 +560,6 @@ func (ef *errflow) analyse(f *ssa.Function, ci ssa.CallInstruction, site *ErrSit
 		}
 	}
 	// nil tests
-	type ntest struct {
-		v    ssa.Value
-		iff  *ssa.If
-		S, N *ssa.BasicBlock
-	}
 	var tests []ntest
 	for g := range owners {
 		allInstrs(g, func(ins ssa.Instruction) {
@@ -606,6 +601,14 @@ func (ef *errflow) analyse(f *ssa.Function, ci ssa.CallInstruction, site *ErrSit
 		ps := ef.regionProblems(t.iff.Parent(), t.S, C, idioms, &site.Wrong)
 		problems = append(problems, ps...)
 	}
+	// path check: from the point where the error value becomes known, no path may reach a place where
+	// the value is lost (the defining instruction again, i.e. the next loop iteration, or a return that
+	// does not carry it) without passing one of its nil tests.
+	if handled && len(problems) == 0 {
+		if msg := ef.untestedPath(e, C, tests2blocks(tests)); msg != "" {
+			problems = append(problems, msg)
+		}
+	}
 	if !handled {
 		// used only for logging, compared with sentinels only, or never read
 		site.Problem = "error value is bound but never tested against nil nor returned (reassigned, logged or ignored)"
@@ -624,6 +627,102 @@ func (ef *errflow) analyse(f *ssa.Function, ci ssa.CallInstruction, site *ErrSit
 	if site.Idiom == "" {
 		site.Idiom = "I1"
 	}
+}
+
+type ntest struct {
+	v    ssa.Value
+	iff  *ssa.If
+	S, N *ssa.BasicBlock
+}
+
+func tests2blocks(ts []ntest) map[*ssa.BasicBlock]bool {
+	m := map[*ssa.BasicBlock]bool{}
+	for _, t := range ts {
+		m[t.iff.Block()] = true
+	}
+	return m
+}
+
+// untestedPath looks, for every carrier that is a "root" (the call result, a channel receive), for a path
+// from its definition that loses the value without testing it.
+func (ef *errflow) untestedPath(e ssa.Value, C map[ssa.Value]bool, testBlocks map[*ssa.BasicBlock]bool) string {
+	for v := range C {
+		ins, ok := v.(ssa.Instruction)
+		if !ok {
+			continue
+		}
+		// roots only: values that are not phis/loads of other carriers
+		switch v.(type) {
+		case *ssa.Phi:
+			continue
+		case *ssa.UnOp:
+			if u := v.(*ssa.UnOp); u.Op != token.ARROW {
+				continue
+			}
+		}
+		f := ins.Parent()
+		start := ins.Block()
+		if testBlocks[start] {
+			continue
+		}
+		// blocks in which a carrier is returned count as handling
+		retBlocks := map[*ssa.BasicBlock]bool{}
+		errIdx := errResultIndex(f.Signature)
+		allInstrs(f, func(j ssa.Instruction) {
+			if ret, ok := j.(*ssa.Return); ok && errIdx >= 0 && (C[ret.Results[errIdx]] || C[resolveSpill(ret.Results[errIdx])]) {
+				retBlocks[j.Block()] = true
+			}
+		})
+		// handing the value to another goroutine over a channel counts as handling here (the receive
+		// side is a root of its own)
+		if v.Referrers() != nil {
+			for _, rf := range *v.Referrers() {
+				if sd, ok := rf.(*ssa.Send); ok && sd.X == v {
+					retBlocks[sd.Block()] = true
+				}
+			}
+		}
+		if retBlocks[start] {
+			continue
+		}
+		seen := map[*ssa.BasicBlock]bool{}
+		stack := []*ssa.BasicBlock{}
+		for _, sc := range start.Succs {
+			stack = append(stack, sc)
+		}
+		for len(stack) > 0 {
+			b := stack[len(stack)-1]
+			stack = stack[:len(stack)-1]
+			if seen[b] {
+				continue
+			}
+			seen[b] = true
+			if b == start {
+				return fmt.Sprintf("the error can be overwritten by the next loop iteration without having been tested (a path from %s back to it avoids every nil test of the value)", ef.c.ipos(ins))
+			}
+			if testBlocks[b] || retBlocks[b] {
+				continue
+			}
+			lost := false
+			for _, j := range b.Instrs {
+				if ci, ok := j.(ssa.CallInstruction); ok && noReturnCall(ci.Common()) {
+					lost = false
+					goto next
+				}
+				if _, ok := j.(*ssa.Return); ok {
+					lost = true
+				}
+			}
+			if lost {
+				return fmt.Sprintf("a return at block %d (%s) is reachable from %s without the error having been tested", b.Index, ef.c.ipos(firstPosInstr(b)), ef.c.ipos(ins))
+			}
+			for _, sc := range b.Succs {
+				stack = append(stack, sc)
+			}
+		next:
+		}
+	}
+	return ""
 }
 
 // rowsIterationObligations: I6 — every rows.Next() must be followed by a handled rows.Err().
@@ -661,6 +760,11 @@ func (ef *errflow) rowsIteration(f *ssa.Function, r *Report, rule string) {
 }
 
 // runErrflow evaluates E1 over the given function set.
+// auditedErrSites: error values that are deliberately not consulted on some path, with the reason.
+var auditedErrSites = map[string]string{
+	"node.(*Pegnetd).SyncBlock -> node.(*Pegnetd).GradeS #1": "below V20HeightActivation the SPR grading result is not used at all (ApplyGradedSPRBlock and the SPR rate combination are dead there: C11/C12 era tables), so its error is only consulted from 2.0 on",
+}
+
 func runErrflow(c *Ctx, eff *Effects, r *Report, scope map[*ssa.Function]bool, rule string, lintAll bool) []*ErrSite {
 	ef := &errflow{c: c, eff: eff, sync: c.Sync}
 	var sites []*ErrSite
@@ -689,7 +793,9 @@ func runErrflow(c *Ctx, eff *Effects, r *Report, scope map[*ssa.Function]bool, r
 				continue
 			}
 			sites = append(sites, site)
-			if site.Problem != "" {
+			if why, ok := auditedErrSites[site.construct()]; ok && site.Problem != "" && strings.Contains(site.Problem, "without the error having been tested") {
+				r.audited(rule, site.construct(), c.ipos(ci), why)
+			} else if site.Problem != "" {
 				r.viol(rule, site.construct(), c.ipos(ci), "swallowed: "+site.Problem)
 			} else if site.Idiom == "I1" || site.Idiom == "I2" {
 				r.ok(rule, site.construct(), c.ipos(ci), "handled by "+site.Idiom)
